@@ -690,11 +690,6 @@ def run(res, tier):
     res.rule("C11.6 level locality (Morton ordering): no function that takes a level reaches, through same-class callees, getTreeHeight(), a height-only helper or a member filled from the height - limits, wrap moduli and masks of level l come from l")
     res.floor("C11.6", level_locality(facts, res), 8, "functions reachable from level-parameterised functions")
     res.floor("C11.6.hilbert", level_locality(facts, res, cls="TbfHilbertSpaceIndex", min_level_fns=5, levels=False), 4, "functions reachable from the Hilbert ordering's level-parameterised / index-algebra functions")
-    if deferred_:
-        known_ = tbf.load_known()
-        fresh = [v for v in res.violations[nv0_:] if not tbf.is_known("C11", v, known_)]
-        if not fresh:
-            raise deferred_[0]
     res.rule("C11.5 lists and levels fit together: with the window clamps, wrap and shift, too-close threshold, empty-below level, self exclusion and upper-half filter read from the per-cell builders, every other leaf cell (non periodic) / every unwrapped leaf cell of the images -1..1 (periodic, heights from 1) reaches a target through the near list or the interaction list of exactly one level (rules/decomp.py; Dim 1 and 2)")
     import decomp
     lv = {}
@@ -719,3 +714,8 @@ def run(res, tier):
     if h != 2:
         raise AnalysisBroken("positive control fixtures/c11_literal_shift.cpp: %d of 2 literal-dimension constructs reported" % h)
     res.instance("C11.2.literal-dimension", "positive control", "verif:fixtures/c11_literal_shift.cpp", "2 of 2 seeded constructs reported")
+    if deferred_:
+        known_ = tbf.load_known()
+        fresh = [v for v in res.violations[nv0_:] if not tbf.is_known("C11", v, known_)]
+        if not fresh:
+            raise deferred_[0]
